@@ -188,3 +188,13 @@ P['C16'] = dict(
     dict(name='H16B', src='C16_density.cpp', covers=['built', 'end'], defines={'VCAP': 8, 'H16B': None, 'NOPS': 3}, cfg=dict(fp='havoc'), ir_srcs=ALL_IR, native_srcs=ALL_IR, native_flags=['-llemon'],
          thorough=dict(defines={'NOPS': 4})),
   ])
+
+P['C17'] = dict(
+  design_ref='DESIGN.md section 3 C17',
+  level_text='The solve itself is Eigen (environment); what the repository owns is the linear system. Solver-checked on the real NetModel / MatrixCreator code with symbolic real-valued weight and pin offsets: for two-pin nets in the initial star model (movable-movable and movable-fixed) the net model stores the weight unchanged and the assembled entries are exactly w, -w and w*(offset difference) - the system whose solution is the weighted least-squares optimum, so the pull of a net is proportional to its (fractional) weight. Float arithmetic in the linear error model with rounding treated as a function of the exact expression.',
+  text=dict(bounds=dict(quick='1 net, 2 pins (one optionally fixed), weight symbolic in [2^-7, 64], offsets in [-1000,1000]', thorough='same'),
+            outside='power-of-two scaling invariance of every net model (needs bit-exact float reasoning: declined, harness H17A kept in the source); nets of degree > 2, B2B/clique/light-star weights 1/distance; penalties; the tolerance clause (conjugate-gradient behaviour)'),
+  assumptions=STD_ASSUME + [EIGEN_ASSUME, 'float rounding modelled as a function fl(e)=e+eta(e), |eta|<=2^-24 M(e)'],
+  harnesses=[
+    dict(name='H17B', src='C17_weights.cpp', covers=['end'], defines={'VCAP': 6, 'H17B': None}, cfg=dict(fp='real', query_timeout_ms=60000), ir_srcs=ALL_IR, native_srcs=ALL_IR, native_flags=['-llemon']),
+  ])
